@@ -184,7 +184,10 @@ class P(flow.Plan):
                 rng = random.Random(sd * 31 + k)
                 # the ending in its escaped spelling or as real control characters (raw; added after seed C08g)
                 cfg = {"dp": dp, "style": style, "eol": rng.choice(["\n", "\r\n", "\r\n", "\r"]), "raw_eol": k % 2 == 0,
-                       "labels": rng.choice([["X", "Y", "Z"], ["A", "B", "C"], ["U", "V", "W"], ["X", "Y", "Z"]])}
+                       # relabelings that reuse an axis NAME for another axis (added after seed C08h: exchanged X / Y, a lathe's
+                       # Y <-> Z, a three-cycle, a shift) besides foreign letters
+                       "labels": rng.choice([["X", "Y", "Z"], ["A", "B", "C"], ["U", "V", "W"], ["Y", "X", "Z"], ["X", "Z", "Y"],
+                                             ["Z", "X", "Y"], ["A", "X", "Y"]])}
                 ev = []
                 for cmd in CMDS:
                     vals = values(rng, cmd[2], n)
